@@ -22,8 +22,9 @@ RULE = ("cases = max_packet_size in {1,3,64,1024} (thorough adds 2,8,512,1023) x
 ASSUMPTIONS = ["max_packet_size >= 1",
                "a SOF (new_frame) arrives only between packets and not in the cycle of a request for this endpoint",
                "bytes_in_frame <= 3 * max_packet_size at every SOF (as documented for the port)"]
-PARTIAL = ("frame_finished and the PID value of zero-length packets are co-simulated but not part of the theorems "
-           "(the property does not constrain them)")
+# Everything the property states is in the theorems.  Two outputs the property does not constrain
+# (frame_finished, the PID value of zero-length packets) are co-simulated but not part of the theorems.
+PARTIAL = ""
 
 NAMES_IN = ["endpoint", "is_in", "ready_for_response", "new_frame", "tx_ready", "stream_valid", "stream_payload",
             "bytes_in_frame"]
